@@ -595,6 +595,7 @@ class ObjectMethod(DeserializationMethod):
     # method of the additional keys of a TypedDict (Any: copies unless no_copy)
     extra_method: DeserializationMethod
     aggregate_fields: bool = field(init=False)
+    field_names: AbstractSet[str] = field(init=False)
 
     def __post_init__(self):
         self.aggregate_fields = bool(
@@ -602,6 +603,8 @@ class ObjectMethod(DeserializationMethod):
             or self.pattern_fields
             or self.additional_field is not None
         )
+        # an additional key of a TypedDict never takes the place of a declared field
+        self.field_names = {f.name for f in self.fields}
 
     def deserialize(self, data: Any) -> Any:
         discriminator: Optional[str] = None
@@ -699,7 +702,8 @@ class ObjectMethod(DeserializationMethod):
                             )
                 elif self.typed_dict:
                     for key in remain:
-                        values[key] = self.extra_method.deserialize(data[key])
+                        if key not in self.field_names:
+                            values[key] = self.extra_method.deserialize(data[key])
         elif len(data) != fields_count:
             if not self.additional_properties:
                 for key in data.keys() - self.all_aliases:
@@ -709,7 +713,8 @@ class ObjectMethod(DeserializationMethod):
                         )
             elif self.typed_dict:
                 for key in data.keys() - self.all_aliases:
-                    values[key] = self.extra_method.deserialize(data[key])
+                    if key not in self.field_names:
+                        values[key] = self.extra_method.deserialize(data[key])
         if self.validators:
             init = None
             # field_errors is keyed by aliases, validators dependencies are field names
